@@ -361,6 +361,24 @@ def newuoa_case(rng) -> dict:
             "topology": "unconnected", "inherited": True, "resimulate": False, "input_c": None}
 
 
+def cobyla_case(rng) -> dict:
+    """The second known finding: started on an optimum in a box corner, NLopt's cobyla (via pygmo) ends an
+    evolution by evaluating an uninitialised vector (about one run in three of this shape)."""
+    params = [
+        {"key": DET_KEYS["cvc"], "slot": "cvc", "n": None, "log": False, "bounds": [10.827103781156392, 40.238274819157795]},
+        {"key": "pipeline.charge_measurement.m.arguments.w", "slot": "w", "n": 4, "log": False,
+         "bounds": [30.057953982090297, 38.68062078073517]},
+        {"key": "pipeline.charge_measurement.m.arguments.a", "slot": "a", "n": None, "log": False,
+         "bounds": [-16.47640847582924, 53.42136321280078]},
+    ]
+    return {"kind": "cal", "group": "charge_measurement", "model": "m", "n_v": 3, "n_w": 4, "params": params,
+            "truth": [99.1, 55.9, 55.9, 55.9, 55.9, 193.2],
+            "algo": {"type": "nlopt", "generations": 1, "population_size": 1, "nlopt_solver": "cobyla", "maxeval": 28,
+                     "xtol_rel": 1e-8, "replacement": "random", "nlopt_selection": "random"},
+            "pygmo_seed": rng.randint(0, 100000), "pipeline_seed": None, "islands": rng.randint(1, 3), "evolutions": 3,
+            "best": None, "topology": "unconnected", "inherited": True, "resimulate": False, "input_c": None}
+
+
 # ------------------------------------------------------------------ building the real objects
 def received_for(case: dict, per_param: list | None, c_value: float | None = None) -> dict:
     """Values the probe must receive: defaults, overridden by the calibrated parameters (and by the
@@ -817,7 +835,8 @@ def plan(tier, seed):
     n_cal, n_dir = (6, 10) if tier == "quick" else (60, 60)
     specs = [{"shard": s, "seed": seed, "kind": "mixed", "n": n_cal + n_dir, "n_cal": n_cal, "tier": tier}
              for s in range(16)]
-    specs.append({"shard": 100, "seed": seed, "kind": "newuoa", "n": 2 if tier == "quick" else 6, "tier": tier})
+    # the two known findings (nlopt newuoa / cobyla): witness-shaped cases, alternating
+    specs.append({"shard": 100, "seed": seed, "kind": "known", "n": 4 if tier == "quick" else 12, "tier": tier})
     return specs
 
 
@@ -828,8 +847,8 @@ def run_shard(spec, rec):
         if not rec.wanted(i):
             continue
         rng = rec.rng(i)
-        if spec["kind"] == "newuoa":
-            run_calibration_case(rec, i, newuoa_case(rng))
+        if spec["kind"] == "known":
+            run_calibration_case(rec, i, newuoa_case(rng) if i % 2 == 0 else cobyla_case(rng))
             continue
         force = FORCES[(i + spec["shard"]) % len(FORCES)]
         if i < spec["n_cal"]:
